@@ -564,11 +564,33 @@ class SBytes:
         return left, []
 
     def byte_at(self, pos):
-        l, r = self.split(pos)
-        if not r:
+        """byte term at position pos (z3 term, 0 <= pos < len assumed);
+        built as one ite term over the segments: no forking"""
+        pos = z3.simplify(pos)
+        acc = bvv(0)
+        pieces = []          # (upper bound, term)
+        for s in self.segs:
+            ln = self.seglen(s)
+            rel = z3.simplify(pos - acc)
+            if isinstance(s, list):
+                if z3.is_bv_value(rel):
+                    r = rel.as_signed_long()
+                    t = s[r] if 0 <= r < len(s) else None
+                else:
+                    t = s[-1]
+                    for i in range(len(s) - 2, -1, -1):
+                        t = z3.If(rel == i, s[i], t)
+            else:
+                t = s.at(rel)
+            acc = z3.simplify(acc + ln)
+            if t is not None:
+                pieces.append((acc, t))
+        if not pieces:
             raise IndexError("index out of range")
-        s = r[0]
-        return s[0] if isinstance(s, list) else s.at(bvv(0))
+        out = pieces[-1][1]
+        for ub, t in reversed(pieces[:-1]):
+            out = z3.If(pos < ub, t, out)
+        return z3.simplify(out)
 
     def __getitem__(self, k):
         if isinstance(k, slice):
@@ -1218,3 +1240,63 @@ def run_async(coro_fn, reorder=0, max_steps=20000):
             pass
         asyncio.set_event_loop(None)
         loop.close()
+
+
+# ---------------------------------------------------------------------------
+# logic helpers that work on proxies and on plain values (concrete twin)
+# ---------------------------------------------------------------------------
+def _tb(x):
+    if isinstance(x, SBool):
+        return x.e
+    if isinstance(x, SInt):
+        return x.e != 0
+    return z3.BoolVal(builtins.bool(x))
+
+
+def land(*xs):
+    if not any(isinstance(x, (SBool, SInt)) for x in xs):
+        return all(xs)
+    return SBool(z3.And(*[_tb(x) for x in xs]))
+
+
+def lor(*xs):
+    if not any(isinstance(x, (SBool, SInt)) for x in xs):
+        return any(xs)
+    return SBool(z3.Or(*[_tb(x) for x in xs]))
+
+
+def lnot(x):
+    if not isinstance(x, (SBool, SInt)):
+        return not x
+    return SBool(z3.Not(_tb(x)))
+
+
+def implies(a, b):
+    return lor(lnot(a), b)
+
+
+def ite(c, a, b):
+    if not isinstance(c, (SBool, SInt)):
+        return a if c else b
+    return SInt(z3.If(_tb(c), lift(a), lift(b)))
+
+
+def beq(a, b):
+    """equality of byte strings (proxy or plain)"""
+    if isinstance(a, (SBytes, SByteArray)) or isinstance(b, (SBytes, SByteArray)):
+        return SBytes.of(a) == b
+    return builtins.bytes(a) == builtins.bytes(b)
+
+
+class scope:
+    """temporary assumptions (e.g. a symbolic probe index)"""
+
+    def __enter__(self):
+        if not E.concrete:
+            E.solver.push()
+        return self
+
+    def __exit__(self, *a):
+        if not E.concrete:
+            E.solver.pop()
+        return False
